@@ -67,11 +67,10 @@ Definition repr_half (t : Z) : pystr :=
   let a := Z.abs t in
   (if Z.ltb t 0 then [cMINUS] else []) ++ p_of_Z (Z.div a 2) ++ [cDOT; if Z.even a then 48 else 53].
 
-(* repr(param) for the non-string atoms; str keys go through stringify_element.
-   bytes keys: stringify_param treats them as strings and `"'" in param` raises
-   TypeError, so DeepDiff cannot report below a bytes key at all: [atom_renders]
-   is false on ABytes (the text given is what stringify_path prints). *)
-(* repr of a bytes object (only reachable through stringify_path on parsed b'..' elements) *)
+(* repr(param) for the non-string atoms (str keys go through stringify_element).
+   bytes keys take the repr branch of stringify_param since /repo commit 0fac13b
+   (before it `"'" in param` raised TypeError for them). *)
+(* repr of a bytes object *)
 Definition hex_digit (n : N) : N := if n <? 10 then 48 + n else 87 + n.
 Definition repr_bytes (s : pystr) : pystr :=
   let q := if has_char cSQ s && negb (has_char cDQ s) then cDQ else cSQ in
@@ -91,8 +90,9 @@ Definition repr_atom (a : atom) : pystr :=
   | AStr s => s
   | ABytes s => repr_bytes s
   end.
-Definition atom_renders (a : atom) : bool :=
-  match a with ABytes _ => false | _ => true end.
+(* every atom has a path text (kept for the importing blocks; was false on bytes
+   before /repo commit 0fac13b) *)
+Definition atom_renders (a : atom) : bool := true.
 
 (* ChildRelationship.stringify_param for DictRelationship /
    SubscriptableIterableRelationship (quote_str "'{}'"), before param_repr_format *)
@@ -488,12 +488,18 @@ Definition stringify_keys (first : action) (ks : path) : pystr :=
 (* ------------------------------------------------------------------ *)
 Definition str_ok (s : pystr) : bool :=
   negb (has_char cSQ s && has_char cDQ s) && negb (last s 0 =? cESC).
+(* bytes keys (outside C09's quantifier; printed since /repo commit 0fac13b):
+   printable ASCII without backslash, not both quote characters - exactly when
+   repr needs no escape *)
+Definition bytes_ok (s : pystr) : bool :=
+  forallb (fun c => (32 <=? c) && (c <=? 126) && negb (c =? cBS)) s
+  && negb (has_char cSQ s && has_char cDQ s).
 Definition key_ok (k : pkey) : bool :=
   match k with
   | PIdx _ => true
   | PKey ANone | PKey (ABool _) | PKey (AInt _) => true
   | PKey (AHalf t) => Z.ltb (Z.abs t) 9007199254740992   (* 2^53: exact doubles, repr without exponent *)
   | PKey (AStr s) => str_ok s
-  | PKey (ABytes _) => false
+  | PKey (ABytes s) => bytes_ok s
   end.
 Definition path_ok (ks : path) : bool := forallb key_ok ks.
